@@ -544,10 +544,31 @@ func (er *encRun) roundTrip(stream string, t *target, m protoreflect.Message, fl
 			if rep {
 				res.Count("theorem_precondition_rep_root_holds")
 			}
-			er.em.cf.Terms = append(er.em.cf.Terms, fmt.Sprintf("CRound %s %s %s %s %s %s %s %s %s %s %s %s %s %s", t.Name, vh.BoolTerm(inTheoremShape(t.Env)), codecgen.BytesTerm(t.Env.Root), msgTerm(m),
+			// the shared-holder oneof shape: the case is inside the theorem's preconditions for the
+			// hoisted view of its environment (CodecSharedHolder.hoist_env; Coq evaluates the deciders
+			// on it and runs the models on it against this document and this decoded message)
+			hoist := false
+			if !inTheoremShape(t.Env) {
+				res.Count("shared_holder_shape_cases")
+				switch {
+				case outsideRepRoot(m) != "":
+					res.Count("shared_holder_outside_rep_root")
+				case dpan != nil || derr != nil:
+					res.Count("shared_holder_decode_failed")
+				case holderWithoutMember(t.Env, t.Env.Root, m):
+					res.Count("shared_holder_holder_without_member")
+				default:
+					hoist = true
+					res.Count("shared_holder_inside_hoisted_theorem")
+				}
+			}
+			if rep || hoist {
+				res.Count("theorem_side_condition_holds_direct_or_hoisted")
+			}
+			er.em.cf.Terms = append(er.em.cf.Terms, fmt.Sprintf("CRound %s %s %s %s %s %s %s %s %s %s %s %s %s %s %s", t.Name, vh.BoolTerm(inTheoremShape(t.Env)), codecgen.BytesTerm(t.Env.Root), msgTerm(m),
 				facts.floatsTerm(), facts.innersTerm(), pf, pt, vh.BoolTerm(facts.maxMap <= 1), codecgen.BytesTerm(string(o.Out)), backTerm,
 				vh.BoolTerm(facts.kinds["any"] == 0), // messages are compared with dec's model unless an Any is inside (its j5_json is stored in another canonical spelling)
-				abackTerm, vh.BoolTerm(rep)))
+				abackTerm, vh.BoolTerm(rep), vh.BoolTerm(hoist)))
 			res.Cases = append(res.Cases, vh.CaseRec{Case: caseNo, Stream: stream, Input: in, Impl: map[string]any{"out": short(o.Out), "decode_err": fmt.Sprint(derr)}})
 		}
 	}
@@ -675,6 +696,15 @@ func runC01(cfg *vh.Config) error {
 		}
 	}
 	libParsers(cfg, er)
+	// share of the round-trip cases that satisfy the side conditions of C01_full_statement_decided, directly
+	// or for the hoisted view of a shared-holder environment (each flag is re-computed by Coq per case)
+	if n := res.Distribution["theorem_precondition_cases"]; n > 0 {
+		res.Distribution["theorem_side_condition_share_permille_direct"] = res.Distribution["theorem_precondition_rep_root_holds"] * 1000 / n
+		res.Distribution["theorem_side_condition_share_permille_direct_or_hoisted"] = res.Distribution["theorem_side_condition_holds_direct_or_hoisted"] * 1000 / n
+	}
+	if n := res.Distribution["shared_holder_shape_cases"]; n > 0 {
+		res.Distribution["shared_holder_share_permille_inside_hoisted_theorem"] = res.Distribution["shared_holder_inside_hoisted_theorem"] * 1000 / n
+	}
 	res.Evaluations = em.caseNo
 	res.Distinct = len(er.distinct) - 1
 	_ = json.Valid
